@@ -32,7 +32,16 @@ pub struct OrderMsg {
 
 #[derive(Clone, Debug, Serialize, Deserialize)]
 pub enum Case {
-    Perm { t: TraceCase, table: TableKind, win: u8, min_delay: u64 },
+    Perm {
+        t: TraceCase,
+        table: TableKind,
+        win: u8,
+        min_delay: u64,
+        /// message indices as the sorter sees them: 0 = unique (file order), 1 = every ECU numbers from 0 (merged
+        /// sources that were numbered separately), 2 = all 0 (constructed messages)
+        #[serde(default)]
+        reindex: u8,
+    },
     Order {
         lcs: Vec<(u8, u64)>,
         msgs: Vec<OrderMsg>,
@@ -160,14 +169,19 @@ impl Check for C10 {
                 table,
                 win: *k.pick(&[1u8, 2, 3, 10, 255]),
                 min_delay: *k.pick(&[0u64, 1_000, 2_000_000, 20_000_000]),
+                reindex: *k.pick(&[0u8, 0, 0, 0, 1, 2]),
             }
         }
     }
     fn run(c: &Case, ctx: &mut Ctx) -> Result<(), Violation> {
         match c {
-            Case::Perm { t, table, win, min_delay } => {
+            Case::Perm { t, table, win, min_delay, reindex } => {
                 if *win == 0 {
                     return Ok(());
+                }
+                let reindex = *reindex;
+                if reindex != 0 {
+                    ctx.probe("perm_runs_with_repeated_indices");
                 }
                 record_world(t, ctx);
                 ctx.sig.u64(1);
@@ -187,7 +201,15 @@ impl Check for C10 {
                     drop(tx);
                     let staged = std::cell::RefCell::new(vec![]);
                     let lcs_w = parse_lifecycles_buffered_from_stream(lcs_w, rx, &|m| { staged.borrow_mut().push(m); Ok(()) });
-                    let staged = staged.into_inner();
+                    let mut staged = staged.into_inner();
+                    if reindex != 0 {
+                        let mut per_ecu: HashMap<[u8; 4], u32> = HashMap::new();
+                        for m in staged.iter_mut() {
+                            let c = per_ecu.entry(*m.ecu.as_buf()).or_insert(0);
+                            m.index = if reindex == 1 { *c } else { 0 };
+                            *c += 1;
+                        }
+                    }
                     let (sorted, ok) = match &table {
                         TableKind::Real => run_sort(staged.clone(), &lcs_r, win, min_delay),
                         TableKind::Empty => {
@@ -226,6 +248,22 @@ impl Check for C10 {
                 }
                 if sorted.len() != staged.len() {
                     viol!("sort-count", "{} messages in, {} out", staged.len(), sorted.len());
+                }
+                if reindex != 0 {
+                    // indices repeat: compare the multisets of whole messages
+                    let key = |m: &DltMessage| (m.index, *m.ecu.as_buf(), m.reception_time_us, m.timestamp_dms, m.lifecycle, m.standard_header.mcnt, m.payload.clone());
+                    let mut a: Vec<_> = staged.iter().map(key).collect();
+                    let mut b: Vec<_> = sorted.iter().map(key).collect();
+                    a.sort();
+                    b.sort();
+                    if a != b {
+                        let first = a.iter().zip(b.iter()).position(|(x, y)| x != y).unwrap_or(std::cmp::min(a.len(), b.len()));
+                        viol!("sort-multiset", "with repeated message indices ({}) the output is not a permutation of the input: sorted multisets differ at {} of {} ({} out)", if reindex == 1 { "every ECU numbered from 0" } else { "all 0" }, first, a.len(), b.len());
+                    }
+                    ctx.event_u64(sorted.len() as u64);
+                    ctx.probe("permutation_runs");
+                    ctx.nontrivial = staged.len() > 1;
+                    return Ok(());
                 }
                 let by_index: HashMap<u32, &DltMessage> = staged.iter().map(|m| (m.index, m)).collect();
                 let mut seen = std::collections::HashSet::new();
@@ -362,12 +400,12 @@ impl Check for C10 {
     fn shrink(c: &Case) -> Vec<Case> {
         let mut out = vec![];
         match c {
-            Case::Perm { t, table, win, min_delay } => {
+            Case::Perm { t, table, win, min_delay, reindex } => {
                 for t2 in shrink_trace_case(t) {
-                    out.push(Case::Perm { t: t2, table: table.clone(), win: *win, min_delay: *min_delay });
+                    out.push(Case::Perm { t: t2, table: table.clone(), win: *win, min_delay: *min_delay, reindex: *reindex });
                 }
                 if !matches!(table, TableKind::Real) {
-                    out.push(Case::Perm { t: t.clone(), table: TableKind::Real, win: *win, min_delay: *min_delay });
+                    out.push(Case::Perm { t: t.clone(), table: TableKind::Real, win: *win, min_delay: *min_delay, reindex: *reindex });
                 }
             }
             Case::Order { lcs, msgs, win, min_delay, resumed } => {
@@ -385,7 +423,7 @@ impl Check for C10 {
         out
     }
     fn rule() -> &'static str {
-        "two kinds of runs: (perm) a simulated world (as C05) through the real lifecycle stage and then the real sorter with the real table, a shifted/partial stale table (start times moved by up to 100 s, or set to 0 or u64::MAX) or an empty table, window in {1,2,3,10,255} s, minimum delay in {0, 1 ms, 2 s, 20 s}: output must be a permutation with every message unchanged; (order) 1-3 ECUs x 1-3 lifecycles with given start times (a fifth of them resume lifecycles whose start lies before the start of the lifecycle they resumed, so that start and displayed start differ), reception times never decreasing (ties included), per-message buffering delay within the configured minimum (incl. exactly at the bound and 'negative' = capped), control requests interspersed: output must be ordered by (calculated time, original position); precondition re-checked on the concrete case; non-trivial = the sorter had to move at least one message / more than one message; distinct = hash of the case"
+        "two kinds of runs: (perm) a simulated world (as C05) through the real lifecycle stage and then the real sorter with the real table, a shifted/partial stale table (start times moved by up to 100 s, or set to 0 or u64::MAX) or an empty table, window in {1,2,3,10,255} s, minimum delay in {0, 1 ms, 2 s, 20 s}: output must be a permutation with every message unchanged (in a third of these runs the messages reach the sorter renumbered per ECU from 0 or all with index 0, and multisets of whole messages are compared); (order) 1-3 ECUs x 1-3 lifecycles with given start times (a fifth of them resume lifecycles whose start lies before the start of the lifecycle they resumed, so that start and displayed start differ), reception times never decreasing (ties included), per-message buffering delay within the configured minimum (incl. exactly at the bound and 'negative' = capped), control requests interspersed: output must be ordered by (calculated time, original position); precondition re-checked on the concrete case; non-trivial = the sorter had to move at least one message / more than one message; distinct = hash of the case"
     }
     fn assumptions() -> Vec<&'static str> {
         vec!["calculated time as stated: min(lifecycle start + timestamp, reception time), reception time for control requests; lifecycle start taken from the table handed to the sorter"]
